@@ -4,7 +4,7 @@ from . import common
 from .cli import cli_family
 from .mcp import mcp_check
 from .det import det_check
-from .cgt import trace_family, cgt_family, law_family, report_family, calendar_family, fx_family, dsl_family, misc_family, format_family, schwab_family, awards_family, combine, fam_list
+from .cgt import long_family, trace_family, cgt_family, law_family, report_family, calendar_family, fx_family, dsl_family, misc_family, format_family, schwab_family, awards_family, combine, fam_list
 
 
 def c01(tier, seed):
@@ -18,25 +18,25 @@ def c01(tier, seed):
 
 
 def _c01(tier, seed):
-    return combine(fam_list(tier, ['core_q', 'edge_q', 'frac_q', 'split_q', 'split5_q', 'split2_q', 'order_q', 'two_q', 'two_split_q', 'two_fills_q', 'matcher_q', 'lines_q', 'lines4_q', 'lines_splits_q', 'lines_files_q', 'lines_resv_q'], ['core_t', 'split_t', 'sim_t', 'matcher_t', 'matcher_sim_t', 'lines_t', 'lines5_t', 'lines_files_t']) + [trace_family(tier, seed)], 'multi_leg_disposals',
+    return combine(fam_list(tier, ['core_q', 'edge_q', 'frac_q', 'split_q', 'split5_q', 'split2_q', 'order_q', 'two_q', 'two_split_q', 'two_fills_q', 'matcher_q', 'lines_q', 'lines4_q', 'lines_splits_q', 'lines_files_q', 'lines_resv_q'], ['core_t', 'split_t', 'sim_t', 'matcher_t', 'matcher_sim_t', 'lines_t', 'lines5_t', 'lines_files_t']) + [trace_family(tier, seed), long_family(tier, seed)], 'multi_leg_disposals',
                    'every cell ledger of the family (TLC-enumerated) x base dates; non-trivial = ledgers with a disposal '
                    'identified by two or more legs')
 
 
 def c02(tier, seed):
-    return combine(fam_list(tier, ['core_q', 'frac_q', 'split_q', 'split5_q', 'split2_q', 'two_split_q', 'lines_q', 'lines_splits_q'], ['core_t', 'split_t', 'events_q', 'sim_t', 'lines_t']) + [trace_family(tier, seed), cli_family(tier)], 'covered',
+    return combine(fam_list(tier, ['core_q', 'frac_q', 'split_q', 'split5_q', 'split2_q', 'two_split_q', 'lines_q', 'lines_splits_q'], ['core_t', 'split_t', 'events_q', 'sim_t', 'lines_t']) + [trace_family(tier, seed), cli_family(tier), long_family(tier, seed)], 'covered',
                    'every cell ledger of the family; non-trivial = accepted (covered) ledgers, on which the three '
                    'conservation equalities are evaluated on the implementation\'s own report')
 
 
 def c03(tier, seed):
-    return combine(fam_list(tier, ['core_q', 'split_q', 'events_q', 'events_split_q', 'lines_fills_q', 'lines4_q'], ['core_t', 'split_t', 'events_t', 'events_split_t']) + [fx_family(tier), trace_family(tier, seed), cli_family(tier)], ['covered', 'multi_foreign_field'],
+    return combine(fam_list(tier, ['core_q', 'split_q', 'events_q', 'events_split_q', 'lines_fills_q', 'lines4_q'], ['core_t', 'split_t', 'events_t', 'events_split_t']) + [fx_family(tier), trace_family(tier, seed), cli_family(tier), long_family(tier, seed)], ['covered', 'multi_foreign_field'],
                    'every cell ledger of the family; non-trivial = accepted ledgers (legs + closing cost vs expenditure); '
                    'for ledgers with capital events TLC re-runs the specification on the observed apportionment')
 
 
 def c05(tier, seed):
-    return combine(fam_list(tier, ['core_q', 'frac_q', 'split_q', 'split5_q', 'residue_q', 'two_split_q', 'order_q', 'lines_q'], ['core_t', 'split_t', 'two_q', 'lines_t']) + [trace_family(tier, seed), cli_family(tier)], 'uncovered',
+    return combine(fam_list(tier, ['core_q', 'frac_q', 'split_q', 'split5_q', 'residue_q', 'two_split_q', 'order_q', 'lines_q'], ['core_t', 'split_t', 'two_q', 'lines_t']) + [trace_family(tier, seed), cli_family(tier), long_family(tier, seed)], 'uncovered',
                    'every cell ledger of the family, covered or not; non-trivial = uncovered ledgers (must be refused '
                    'naming security and date); covered ones must be accepted')
 
@@ -71,7 +71,7 @@ def laws(tier, quick, thorough):
 
 
 def c10(tier, seed):
-    return combine(laws(tier, ['rescale_q', 'rescale_two_q', 'rescale_events_q', 'unsplit_q'], ['rescale_t', 'rescale5_t', 'unsplit_t']) + fam_list(tier, ['split_q', 'split2_q', 'two_split_q', 'events_split_q', 'lines_splits_q'], ['split_t', 'events_split_t']),
+    return combine(laws(tier, ['rescale_q', 'rescale_two_q', 'rescale_events_q', 'unsplit_q'], ['rescale_t', 'rescale5_t', 'unsplit_t']) + fam_list(tier, ['split_q', 'split2_q', 'two_split_q', 'events_split_q', 'lines_splits_q'], ['split_t', 'events_split_t']) + [long_family(tier, seed)],
                    ['nontrivial', 'with_splits'],
                    'pairs (ledger with one split at every position, same ledger rewritten in post-split units) and (ledger, '
                    'ledger + SPLIT f .. UNSPLIT f with no trade between): TLC checks the law between the two specification '
@@ -91,7 +91,7 @@ def reports(tier, quick, thorough):
 
 
 def c04(tier, seed):
-    return combine(reports(tier, ['report_q', 'report_missing_q'], ['report_t', 'report_one_t']) + [cli_family(tier), fx_family(tier)], ['reports', 'missing_exemption_refused', 'layering_configs', 'multi_foreign_field'],
+    return combine(reports(tier, ['report_q', 'report_missing_q'], ['report_t', 'report_one_t']) + [cli_family(tier), fx_family(tier)] + fam_list(tier, ['lines4_q', 'lines_fills_q'], []), ['reports', 'missing_exemption_refused', 'layering_configs', 'multi_foreign_field'],
                    'two-security cell ledgers placed on real dates around 5/6 April with cash dividends and a small exemption '
                    'table (one family leaves a needed year unconfigured); TLC checks the report identities on the '
                    'specification and prints the per-year totals; the implementation\'s TaxReport must show the same '
@@ -237,7 +237,7 @@ def c20(tier, seed):
 
 
 def c11(tier, seed):
-    return combine(fam_list(tier, ['events_q', 'events_cheap_q', 'events_split_q', 'events_order_q', 'matcher_events_q', 'lines4_q'], ['events_t', 'events_split_t', 'matcher_events_t', 'matcher_sim_t']) + [trace_family(tier, seed), fx_family(tier)], 'with_events',
+    return combine(fam_list(tier, ['events_q', 'events_cheap_q', 'events_split_q', 'events_order_q', 'matcher_events_q', 'lines4_q'], ['events_t', 'events_split_t', 'matcher_events_t', 'matcher_sim_t']) + [trace_family(tier, seed), fx_family(tier), long_family(tier, seed)], 'with_events',
                    'cell ledgers with a capital return / accumulation cell at every position; TLC judges the observed '
                    'per-lot apportionment (never on later acquisitions, sums to the net amount, nothing negative); '
                    'conservation of the amount, s122 refusal of unabsorbable returns, dividend inertness; '
